@@ -10,14 +10,25 @@ SPEC = dict(
          "VERIF_SEED: designed strictly convex quadratics (A=LL'+I, KKT certificate in the record) unconstrained / boxed "
          "(all four bound kinds, active bounds) / linear equality+inequality rows, Rosenbrock-like, dimension 1..8 "
          "(thorough 1..20); LBFGS, LBFGSB, InteriorPoint, CMAES (fixed seed), BestAvailable, CFSQP fallback; analytic and "
-         "numerical (forward/central) gradients and Jacobians; feasible and infeasible starts; distinct = distinct records",
-    partial="the optimisation algorithms (lbfgs, lbfgsb, IPOPT, c-cmaes) are vendored and not modelled: their results are "
-            "decided by the exact-rational acceptance contract (C39.accept, proved sound) and by the implementation-side "
-            "predicates; modelled and tied exactly: constructOptimizerRep selection table, constructor dimension checks, "
-            "which user virtuals the numerical-derivative wrappers call, the Differentiator stencil (bit-exact blocks in "
-            "the evaluation log), simbody's L-BFGS termination test; 'within the convergence tolerance' is given a "
-            "per-algorithm meaning (proved constant for LBFGS, measured constants for LBFGSB/IPOPT/CMAES, see notes/C39.md); "
-            "IPOPT evaluations are held to its documented bounds_relax_factor 1e-8 and are not claimed for an infeasible start",
+         "numerical (forward/central) gradients and Jacobians; feasible and infeasible starts; 1/12 of the gradient runs forced to "
+         "fail (IPOPT maxIterations=2, wrong-sign gradient for L-BFGS(-B)) to exercise the exception path; distinct = distinct records",
+    partial="(i) proved about simbody's own code, executed by the driver and tied exhaustively/exactly: the constructOptimizerRep "
+            "selection table + constructor dimension checks (9 theorems), simbody's L-BFGS termination test (lbfgs_stop_gradnorm, "
+            "lbfgs_stop_distance: checked to hold at every returned LBFGS point and giving the one PROVED distance constant), the "
+            "Differentiator step (stepH_exact/pos); mathematics used by the contract: grad_cert(_gram), kkt_optimal/kkt_unique (the "
+            "designed optimum really is the unique minimiser), quad_gap.  (ii) predicate-only (exact-rational contract C39.accept + "
+            "harness predicates; the *_sound / accept_iff / contract_sound / within_bounds_all theorems are unfoldings saying the "
+            "checker checks what it says and constrain no optimizer): returned f = f(x); descent methods not worse than start; limits "
+            "honoured by evaluations and result; IPOPT feasibility within ctol; unique minimiser within tolerance (LBFGSB constant "
+            "derived from a measured objective-gap bound, IPOPT/CMA-ES constants measured; an error of 1e-3 in the returned optimum is "
+            "detectable only in the tight-tolerance third of the runs); CMA-ES reproducibility (two runs in one process, documented "
+            "precondition maxTimeFractionForEigendecomposition=1); which user virtuals the numerical-derivative wrappers call (the "
+            "numgrad/numjac_calls_differentiator theorems are about a literal list model).  When the optimizer throws, only limits on "
+            "evaluations / on the vector left behind and 'descent method leaves no worse point' are checked; a floor predicate requires "
+            ">= 90 % of the non-forced runs per algorithm to return.  (iii) not covered: the vendored algorithms themselves (lbfgs, "
+            "lbfgsb, IPOPT, c-cmaes); nonlinear constraints; IPOPT advanced options; limited-memory history other than 20; dimension "
+            "9..20 only in the thorough tier; IPOPT evaluations are held to its documented bounds_relax_factor 1e-8 and not claimed for an "
+            "infeasible user start",
     assumptions=["the harness's OptimizerSystem logs every point it is asked to evaluate (component-wise envelope over all, "
                  "first 400 points verbatim)",
                  "CMA-ES reproducibility is checked under the documented precondition maxTimeFractionForEigendecomposition=1"],
